@@ -18,6 +18,9 @@ pub const UNI_NAMES: &[&str] = &[
     "I", "i", "S", "s", "\u{3c9}", "\u{3a9}", "\u{10000}", "\u{e000}a", "\u{10428}",
     "\u{10400}", "\u{ff41}", "\u{ff21}", "\u{430}\u{431}", "\u{410}\u{411}", "\u{4e2d}\u{6587}",
     "\u{1f600}", "k\u{212a}", "\u{e000}", "\u{ffff}", "a\u{300}",
+    // long names whose UTF-8, UTF-16 and character counts all differ (63-93 bytes, 20-31 units),
+    // with case variants
+    "\u{4e2d}\u{4e2d}\u{4e2d}\u{4e2d}\u{4e2d}\u{4e2d}\u{4e2d}\u{4e2d}\u{4e2d}\u{4e2d}\u{4e2d}\u{4e2d}\u{4e2d}\u{4e2d}\u{4e2d}\u{4e2d}\u{4e2d}\u{4e2d}\u{4e2d}\u{4e2d}", "\u{4e2d}\u{4e2d}\u{4e2d}\u{4e2d}\u{4e2d}\u{4e2d}\u{4e2d}\u{4e2d}\u{4e2d}\u{4e2d}\u{4e2d}\u{4e2d}\u{4e2d}\u{4e2d}\u{4e2d}\u{4e2d}\u{4e2d}\u{4e2d}\u{4e2d}\u{4e2d}\u{4e2d}", "\u{4e2d}\u{4e2d}\u{4e2d}\u{4e2d}\u{4e2d}\u{4e2d}\u{4e2d}\u{4e2d}\u{4e2d}\u{4e2d}\u{4e2d}\u{4e2d}\u{4e2d}\u{4e2d}\u{4e2d}\u{4e2d}\u{4e2d}\u{4e2d}\u{4e2d}\u{4e2d}\u{4e2d}\u{4e2d}", "\u{4e2d}\u{4e2d}\u{4e2d}\u{4e2d}\u{4e2d}\u{4e2d}\u{4e2d}\u{4e2d}\u{4e2d}\u{4e2d}\u{4e2d}\u{4e2d}\u{4e2d}\u{4e2d}\u{4e2d}\u{4e2d}\u{4e2d}\u{4e2d}\u{4e2d}\u{4e2d}\u{4e2d}\u{4e2d}\u{4e2d}\u{4e2d}\u{4e2d}\u{4e2d}\u{4e2d}\u{4e2d}\u{4e2d}\u{4e2d}\u{4e2d}", "\u{1e01}\u{1e01}\u{1e01}\u{1e01}\u{1e01}\u{1e01}\u{1e01}\u{1e01}\u{1e01}\u{1e01}\u{1e01}\u{1e01}\u{1e01}\u{1e01}\u{1e01}\u{1e01}\u{1e01}\u{1e01}\u{1e01}\u{1e01}\u{1e01}\u{1e01}\u{1e01}\u{1e01}\u{1e01}", "\u{1e00}\u{1e00}\u{1e00}\u{1e00}\u{1e00}\u{1e00}\u{1e00}\u{1e00}\u{1e00}\u{1e00}\u{1e00}\u{1e00}\u{1e00}\u{1e00}\u{1e00}\u{1e00}\u{1e00}\u{1e00}\u{1e00}\u{1e00}\u{1e00}\u{1e00}\u{1e00}\u{1e00}\u{1e00}", "\u{20ac}\u{20ac}\u{20ac}\u{20ac}\u{20ac}\u{20ac}\u{20ac}\u{20ac}\u{20ac}\u{20ac}\u{20ac}\u{20ac}\u{20ac}\u{20ac}\u{20ac}\u{20ac}\u{20ac}\u{20ac}\u{20ac}\u{20ac}\u{20ac}\u{20ac}\u{20ac}\u{20ac}\u{20ac}\u{20ac}\u{20ac}\u{20ac}\u{20ac}\u{20ac}", "\u{10400}\u{10400}\u{10400}\u{10400}\u{10400}\u{10400}\u{10400}\u{10400}\u{10400}\u{10400}\u{10400}\u{10400}\u{10400}\u{10400}\u{10400}", "\u{10428}\u{10428}\u{10428}\u{10428}\u{10428}\u{10428}\u{10428}\u{10428}\u{10428}\u{10428}\u{10428}\u{10428}\u{10428}\u{10428}\u{10428}",
 ];
 pub const BAD_NAMES: &[&str] = &[
     "a:b", "x!", "a\\b", ":", "01234567890123456789012345678901",
@@ -435,7 +438,9 @@ impl Gen {
                 }
             }
         } else if r < 84 {
-            let n = match self.rng.below(4) {
+            let n = match self.rng.below(if self.prof.w_refuse > 0 { 40 } else { 4 }) {
+                // lengths no file can hold: refused before anything changes
+                4 => *self.rng.pick(&[u64::MAX, u64::MAX - 1, u64::MAX - 511, u64::MAX - 4095, 1u64 << 63, (1u64 << 63) - 1, 1u64 << 48, 0xffff_fffa * 4096 + 1]),
                 0 => self.rng.below(len + 2),
                 // exact multiples of the (mini) sector sizes at or below the current length
                 1 => {
